@@ -20,6 +20,11 @@ DELIMS = [
     ("#{ ", " }#"),
     ("$$", "$$"),
     ("é<", ">é"),
+    ("<", "-->"),
+    ("|", "】】"),
+    ("[", "]]]]]]]]"),
+    ("<!~ <", "<"),
+    ("{{{{{", "}"),
 ]
 
 TAGNAMES = [("time-limited", "removal-marker"), ("tl", "rm"), ("期限", "目印"), ("a", "b")]
@@ -186,12 +191,15 @@ class DocGen:
                 for _ in range(r.randint(1, 3)):
                     out.append("" if r.random() < 0.7 else ind)
             elif c < 0.6:
-                # inline element inside a code line
-                k = self.pick_kind(kinds)
-                self.stats["inline"] += 1
-                name, attrs = self.tag_body(k, False)
-                out.append(ind + self.word() + " " + self.open_tag(name, attrs) + self.word()
-                           + self.close_tag(name) + (" " + self.word() if r.random() < 0.5 else ""))
+                # one to three inline elements inside a code line
+                line = ind + self.word() + " "
+                for _ in range(r.choice([1, 1, 1, 2, 3])):
+                    k = self.pick_kind(kinds)
+                    self.stats["inline"] += 1
+                    name, attrs = self.tag_body(k, False)
+                    line += self.open_tag(name, attrs) + self.word() + self.close_tag(name) + r.choice([" ", ", ", ""]) \
+                        + (self.word() + " " if r.random() < 0.5 else "")
+                out.append(line.rstrip(" "))
             else:
                 k = self.pick_kind(kinds)
                 unwrap = r.random() < p_unwrap
